@@ -108,6 +108,13 @@ IdempotentOK == pc = "done" =>
 
 Terminates == <>(pc = "done")
 
+(* Refinement of the module whose invariants are PROVED for every lane length by TLAPS (RemoveNanAlg.tla, proofs in   *)
+(* RemoveNanProof.tla): every behaviour of this machine - any stride, offset, element kind - is a behaviour of that *)
+(* one, reading the elements of the view in logical order (0 = missing).                                            *)
+LogicalLane(m) == [t \in 0..(vin.len - 1) |-> VElem(m, vin, t)]
+PP == INSTANCE RemoveNanAlg WITH Len0 <- vin.len, Lane0 <- LogicalLane(mem0), lane <- LogicalLane(mem), ret <- vout.len
+RefinesProof == PP!Spec
+
 EmitInv ==
     (Emit /\ pc = "done") =>
         PrintT(<<"REPLAY", ToJson([ev |-> "remove_nan",
